@@ -14,6 +14,10 @@ import (
 // errInjected is the sentinel used for every injected reader failure.
 var errInjected = errors.New("verif: injected reader failure")
 
+// errInjectedEOF is a reader failure whose chain contains io.EOF (transports wrap it): it is a
+// failure, not the end of the stream.
+var errInjectedEOF = fmt.Errorf("verif: injected transport failure: %w", io.EOF)
+
 // errBudget is returned (and recorded) when the code under test asks for more
 // reads than any terminating scan of the input could need.
 var errBudget = errors.New("verif: read budget exhausted (hang)")
@@ -169,7 +173,7 @@ func classify(err error) string {
 		return "none"
 	case err == io.EOF:
 		return "eof"
-	case errors.Is(err, errInjected), errors.Is(err, io.ErrNoProgress), errors.Is(err, errBudget), errors.Is(err, io.ErrUnexpectedEOF):
+	case errors.Is(err, errInjected), err == errInjectedEOF, errors.Is(err, io.ErrNoProgress), errors.Is(err, errBudget), errors.Is(err, io.ErrUnexpectedEOF):
 		return "reader"
 	default:
 		return "parse"
